@@ -302,10 +302,11 @@ type simRun struct {
 
 // redirRec: backend `from` answered `cmd` with MOVED/ASK naming `addr`; marks[j] = commands backend j had received then
 type redirRec struct {
-	cmd   [][]byte
-	addr  string
-	isAsk bool
-	marks []int
+	cmd     [][]byte
+	addr    string
+	isAsk   bool
+	marks   []int
+	enqMark int // number of EnqueueOutFrag calls recorded when the reply was given
 }
 
 func (r *simRun) fail(format string, a ...interface{}) {
@@ -478,6 +479,9 @@ func (r *simRun) clientEvent(ci int, data []byte) {
 	// harness-side view of the request stream of this client
 	var newReqs []*simReq
 	if wasOpen && !c.quit && !c.invalid {
+		if len(c.leftover) > 0 {
+			r.tags["request-cut-across-reads"] = true // the leftover path: conn.Peek/Discard over ring + fresh bytes
+		}
 		c.leftover = append(c.leftover, data...)
 		for len(c.leftover) > 0 {
 			args, n, err := strictParse(c.leftover)
@@ -536,12 +540,16 @@ func (r *simRun) clientEvent(ci int, data []byte) {
 				attributed[e.backend] = true // dialled for a request that was accepted in this event
 			}
 			masterOnly := r.cfg.noslave || q.typ > codec.ReqWriteCmdStart || q.typ == codec.ReqHscan || q.typ == codec.ReqSscan || q.typ == codec.ReqZscan
+			usedSlots := map[int]bool{fs: true} // a slot is visited once per request; the failing slot dialled nothing
 			for bi, nb := range r.backends[nb0:] {
 				if attributed[nb0+bi] {
 					continue
 				}
 				for _, k := range q.keys {
 					s := int(hashkit.Hash(string(k)))
+					if usedSlots[s] {
+						continue
+					}
 					m, sl, _ := r.topo.owner(s)
 					// the connection was dialled by the first rejected request that can have been routed there
 					live := false
@@ -553,6 +561,7 @@ func (r *simRun) clientEvent(ci int, data []byte) {
 					if (m == nb.peer.addr && (masterOnly || !live)) || (!masterOnly && containsStr(sl, nb.peer.addr)) {
 						vs = append(vs, fmt.Sprintf("%d@%s", s, hx([]byte(nb.peer.addr))))
 						attributed[nb0+bi] = true
+						usedSlots[s] = true
 						break
 					}
 				}
@@ -579,11 +588,43 @@ func containsStr(l []string, s string) bool {
 
 // backendEvent answers the oldest pending command on backend j.
 func (r *simRun) backendEvent(j int, kind string, arg string) {
+	if reply := r.backendReply(j, kind, arg); reply != nil {
+		b := r.backends[j]
+		if err := r.env.Feed(b.peer, reply); err != nil {
+			r.tags["feed-error"] = true
+		}
+		r.model = append(r.model, fmt.Sprintf("S %d %s", j, hx(reply)))
+	}
+}
+
+// backendBatch answers the next k pending commands of backend j normally, all in ONE read event of the proxy
+// (replies for different requests - possibly of different clients - arriving in one chunk)
+func (r *simRun) backendBatch(j, k int) {
+	var all []byte
+	for i := 0; i < k; i++ {
+		reply := r.backendReply(j, "ok", "")
+		if reply == nil {
+			break
+		}
+		all = append(all, reply...)
+	}
+	if len(all) == 0 {
+		return
+	}
+	r.tags["replies-batched"] = true
+	if err := r.env.Feed(r.backends[j].peer, all); err != nil {
+		r.tags["feed-error"] = true
+	}
+	r.model = append(r.model, fmt.Sprintf("S %d %s", j, hx(all)))
+}
+
+// backendReply computes (and accounts for) the reply to the oldest pending command on backend j; nil = nothing to answer
+func (r *simRun) backendReply(j int, kind string, arg string) []byte {
 	r.refreshBackends()
 	b := r.backends[j]
 	if b.answered >= len(b.cmds) || b.closed || !b.peer.vc.Opened() {
 		r.tags["backend-noop"] = true
-		return
+		return nil
 	}
 	cmd := b.cmds[b.answered]
 	name := string(lowerASCII(cmd[0]))
@@ -638,7 +679,7 @@ func (r *simRun) backendEvent(j int, kind string, arg string) {
 			}
 		}
 		if known {
-			rec := redirRec{cmd: cmd, addr: string(a), isAsk: kind == "ask"}
+			rec := redirRec{cmd: cmd, addr: string(a), isAsk: kind == "ask", enqMark: len(r.enq)}
 			for _, ob := range r.backends {
 				rec.marks = append(rec.marks, len(ob.cmds))
 			}
@@ -650,10 +691,7 @@ func (r *simRun) backendEvent(j int, kind string, arg string) {
 		}
 	}
 	r.noteAnswered(j, cmd, kind, reply)
-	if err := r.env.Feed(b.peer, reply); err != nil {
-		r.tags["feed-error"] = true
-	}
-	r.model = append(r.model, fmt.Sprintf("S %d %s", j, hx(reply)))
+	return reply
 }
 
 // ---------- provenance oracle ----------
@@ -838,6 +876,10 @@ func (r *simRun) checkClients(after string) {
 						own = true
 					}
 				}
+				split := c.reqs[i].typ == codec.ReqMget || c.reqs[i].typ == codec.ReqDel || c.reqs[i].typ == codec.ReqMset
+				if split && !c.reqs[i].local && !c.reqs[i].rejected && !(c.reqs[i].notok && string(rp) == "+OK\r\n") {
+					r.fail("C07: client %d, reply %d is %q, which is not the reassembled reply of its split request %q (%s)", ci, i, clip(rp), clip(encodeCmd(c.reqs[i].args)), after)
+				}
 				if c.reqs[i].notok && string(rp) == "+OK\r\n" {
 					r.fail("C07: client %d, request %d %q was answered +OK although a node answered one of its fragments with a status other than OK (%s)", ci, i, clip(encodeCmd(c.reqs[i].args)), after)
 				} else if own {
@@ -847,6 +889,10 @@ func (r *simRun) checkClients(after string) {
 				}
 				break
 			}
+		}
+		if !c.peer.vc.Opened() && !c.closed && !c.quit && !c.invalid && r.tags["request-cut-across-reads"] && r.crashed == "" {
+			// C08: a client that sent only well-formed requests (some of them cut across reads) and did not quit
+			r.fail("C08: the proxy closed client %d although it sent only well-formed requests, some of them split across reads (%s)", ci, after)
 		}
 		if c.peer.vc.Opened() {
 			// C09: the maximal prefix of completed requests must have been delivered
@@ -867,6 +913,30 @@ func (r *simRun) checkClients(after string) {
 					r.fail("C09: client %d has %d leading requests completed but only %d replies delivered (%s)", ci, p, len(replies), after)
 				}
 			}
+		}
+	}
+}
+
+// checkAllAnswered: C01 at the end of a trace. The drain phase has answered every command the fake nodes received,
+// so every request of an open connection whose fragments were all answered (or failed) must have got its reply.
+func (r *simRun) checkAllAnswered() {
+	r.refreshBackends()
+	for _, b := range r.backends {
+		if !b.closed && b.answered < len(b.cmds) {
+			return // the trace ends with commands unanswered (not drained): nothing to say
+		}
+	}
+	for ci, c := range r.clients {
+		if !c.peer.vc.Opened() || c.closed {
+			continue
+		}
+		replies, _ := parseReplies(c.peer.recv)
+		done := 0
+		for done < len(c.reqs) && c.reqs[done].complete() {
+			done++
+		}
+		if len(replies) < done {
+			r.fail("C01: at the end of the trace client %d has received %d replies for %d requests that are all answered; request %d %q got none", ci, len(replies), done, len(replies), clip(encodeCmd(c.reqs[len(replies)].args)))
 		}
 	}
 }
@@ -968,26 +1038,31 @@ func (r *simRun) checkRedirects() {
 			}
 		}
 	}
+	// (b) in queueing order (the recording SConn wrapper sees every EnqueueOutFrag): the first time the command is
+	// queued again after its ASK reply, it goes to a connection of the named node, directly behind ASKING
 	for _, rec := range r.redirs {
 		if !rec.isAsk {
 			continue
 		}
-		for j, b := range r.backends {
-			if b.peer.addr != rec.addr {
+		want := encodeCmd(rec.cmd)
+		for i := rec.enqMark; i < len(r.enq); i++ {
+			if !bytes.Equal(r.enq[i].req, want) {
 				continue
 			}
-			from := 0
-			if j < len(rec.marks) {
-				from = rec.marks[j]
-			}
-			for i := from; i < len(b.cmds); i++ {
-				if sameCmd(b.cmds[i], rec.cmd) {
-					if i == 0 || string(lowerASCII(b.cmds[i-1][0])) != "asking" {
-						r.fail("C13: %q was re-sent to %s after an ASK redirect without a preceding ASKING (connection %d, command %d)", clip(encodeCmd(rec.cmd)), rec.addr, j, i)
-					}
-					break
+			e := r.enq[i]
+			okAsking := false
+			if i > rec.enqMark {
+				p := r.enq[i-1]
+				if args, _, err := strictParse(p.req); err == nil && len(args) == 1 && string(lowerASCII(args[0])) == "asking" && p.backend == e.backend {
+					okAsking = true
 				}
 			}
+			if !okAsking {
+				r.fail("C13: %q was re-queued after an ASK redirect without ASKING directly before it on the same connection (connection %d)", clip(want), e.backend)
+			} else if e.backend < len(r.backends) && r.backends[e.backend].peer.addr != rec.addr {
+				r.fail("C13: %q was re-sent to %s, the ASK reply named %s", clip(want), r.backends[e.backend].peer.addr, rec.addr)
+			}
+			break
 		}
 	}
 }
@@ -1047,6 +1122,7 @@ func (r *simRun) finish() {
 	}()
 	if r.crashed == "" {
 		r.checkBackends()
+		r.checkAllAnswered()
 	}
 }
 
@@ -1104,6 +1180,12 @@ func (r *simRun) apply(ev string) (alive bool) {
 		if j < len(r.backends) {
 			r.backendEvent(j, kind, arg)
 		}
+	case "m":
+		j, _ := strconv.Atoi(f[1])
+		k, _ := strconv.Atoi(f[2])
+		if j < len(r.backends) {
+			r.backendBatch(j, k)
+		}
 	case "X":
 		j, _ := strconv.Atoi(f[1])
 		if j < len(r.backends) && !r.backends[j].closed {
@@ -1137,6 +1219,10 @@ func (r *simRun) apply(ev string) (alive bool) {
 		r.model = append(r.model, "E")
 	}
 	if len(r.model) > n0 {
+		if r.cfg.timeout && f[0] != "E" {
+			// the event loop scans the deadlines after every wake-up; nothing has expired here, so nothing may happen
+			r.env.env.MsgTimeout()
+		}
 		r.snapshot()
 		r.checkClients("after event `" + strings.TrimSpace(ev) + "`")
 	}
@@ -1211,6 +1297,9 @@ func (r *simRun) domainTags() []string {
 	}
 	if len(r.clients) > 1 {
 		t = append(t, "multi-client")
+	}
+	if r.tags["request-cut-across-reads"] {
+		t = append(t, "dom:C08")
 	}
 	return t
 }
